@@ -2,13 +2,16 @@ import io
 import os
 from collections.abc import Generator, Iterator
 from itertools import chain
-from typing import IO
+from typing import IO, Any
 
 from google.protobuf.proto import parse, parse_length_prefixed
 
 from pyjelly import jelly
 from pyjelly.errors import JellyConformanceError
 from pyjelly.parse.decode import ParserOptions, options_from_frame
+
+
+HEADER_SIZE = 3
 
 
 def delimited_jelly_hint(header: bytes) -> bool:
@@ -54,6 +57,25 @@ def delimited_jelly_hint(header: bytes) -> bool:
     )
 
 
+class _PrefixedReader(io.RawIOBase):
+    """Raw reader that serves already consumed bytes before the rest of a source."""
+
+    def __init__(self, prefix: bytes, source: IO[bytes]) -> None:
+        self._prefix = prefix
+        self._source = source
+
+    def readable(self) -> bool:
+        return True
+
+    def readinto(self, buffer: Any) -> int | None:
+        if self._prefix:
+            size = min(len(buffer), len(self._prefix))
+            buffer[:size] = self._prefix[:size]
+            self._prefix = self._prefix[size:]
+            return size
+        return self._source.readinto(buffer)  # type: ignore[attr-defined, no-any-return]
+
+
 def frame_iterator(inp: IO[bytes]) -> Generator[jelly.RdfStreamFrame]:
     while frame := parse_length_prefixed(jelly.RdfStreamFrame, inp):
         yield frame
@@ -82,8 +104,16 @@ def get_options_and_frames(
         # Input may not be seekable (e.g. a network stream) -- then we need to buffer
         # it to determine if it's delimited.
         # See also: https://github.com/Jelly-RDF/pyjelly/issues/298
-        inp = io.BufferedReader(inp)  # type: ignore[arg-type, type-var, unused-ignore]
-        is_delimited = delimited_jelly_hint(inp.peek(3))
+        # A single read may return fewer bytes than asked for (sockets, pipes), so
+        # keep reading until the whole header has arrived or the input ends.
+        header = b""
+        while len(header) < HEADER_SIZE:
+            chunk = inp.read(HEADER_SIZE - len(header))
+            if not chunk:
+                break
+            header += chunk
+        inp = io.BufferedReader(_PrefixedReader(header, inp))
+        is_delimited = delimited_jelly_hint(header)
     else:
         is_delimited = delimited_jelly_hint(bytes_read := inp.read(3))
         inp.seek(-len(bytes_read), os.SEEK_CUR)
